@@ -46,11 +46,38 @@ TOL_EIGPAIR = {"f8": 1e-6, "f4": 1e-3}  # |Q c - c / l| relative to max |Q| (ARP
 
 N_SAMPLES = 14
 COND_MAX = 1.0e3  # condition number of every block covariance (vertex, pair concatenated, pair subtracted)
-GAP_MIN = 1.3  # ratio between the two smallest eigenvalues of every block covariance (rank truncation b - 1)
+GAP_MIN = 1.3  # ratio of consecutive eigenvalues of every block covariance at every truncation rank in the alphabet
+# (after the largest, at the middle, before the smallest): the truncated pseudo-inverse is well defined there
 
 MODES = ["concatenation", "subtraction"]
-NCOMP_QUICK = ["none", "trunc"]
-NCOMP_THOROUGH = ["none", "trunc", "full"]  # full: the SVD path keeping every component (== plain inverse)
+# n_components letters, relative to dim = size of the block covariance (k for subtraction / edgeless, 2k for
+# concatenation).  The code has two natural limits: 1 (smallest rank) and dim (from there on `s[:, :n]` keeps everything,
+# i.e. the documented full inverse); the letters sit on and around them, in the middle of the range and far above.
+# Letters whose value is < 1 (rank 0 is not a model) or repeats an earlier letter's value for this dim are dropped.
+NCOMP_ALL = ["none", "dim-1", "dim", "1", "mid", "dim+1", "2dim-1", "2dim", "far"]
+NCOMP_QUICK = ["none", "dim-1"]  # crossed with every other letter
+NCOMP_THOROUGH = ["none", "dim-1", "dim"]
+NCOMP_FAR = 1000
+
+
+def nc_value(nc, dim):
+    return {"none": None, "1": 1, "mid": dim // 2, "dim-1": dim - 1, "dim": dim, "dim+1": dim + 1, "2dim-1": 2 * dim - 1, "2dim": 2 * dim, "far": NCOMP_FAR}[nc]
+
+
+def nc_letters(dim):
+    """the n_components letters that are distinct models for this block size, in NCOMP_ALL order."""
+    out, seen = [], set()
+    for nc in NCOMP_ALL:
+        v = nc_value(nc, dim)
+        if v is not None and v < 1:
+            continue
+        if nc == "mid" and not (1 < v < dim - 1):
+            continue
+        if v in seen:
+            continue
+        seen.add(v)
+        out.append(nc)
+    return out
 DTYPES = ["f8", "f4"]
 FEEDS = ["array", "list", "pc"]  # crossed with every configuration letter
 # array : GMRFVectorModel fed an (n, V k) ndarray
@@ -76,6 +103,9 @@ FORM_FEEDS = [
     "rowstrided",  # every second row of a taller array
     "negstride",  # view with negative strides on both axes
     "pc-tuple",  # GMRFModel fed a tuple of PointClouds
+    "array-n",  # ndarray plus n_samples equal to its length
+    "list-n",  # list plus n_samples equal to its length (the `[:n_samples]` slice takes everything)
+    "pc-iter-n",  # GMRFModel fed an iterator of PointClouds plus n_samples (as_matrix requires an iterator then)
     "pc-i8",  # (Xi) GMRFModel fed PointClouds with int64 points
     "pc-f4",  # (Xi) GMRFModel fed PointClouds with float32 points (single-precision mean, as f4d)
 ]
@@ -193,11 +223,11 @@ def ref_cov(M, bias):
 
 
 def ref_inverse(C, ncomp):
-    """inverse (ncomp = 'none' / 'full') or best rank-(b-1) pseudo-inverse ('trunc') of a symmetric PD matrix by
+    """inverse (ncomp None or >= dim) or best rank-ncomp pseudo-inverse (ncomp < dim) of a symmetric PD matrix by
     its eigen-decomposition."""
     lam, U = np.linalg.eigh(C)
     lam, U = lam[::-1], U[:, ::-1]
-    r = C.shape[0] - 1 if ncomp == "trunc" else C.shape[0]
+    r = C.shape[0] if ncomp is None else min(int(ncomp), C.shape[0])
     return (U[:, :r] / lam[:r]).dot(U[:, :r].T)
 
 
@@ -267,7 +297,10 @@ def gmrf_data(seed, nv, k):
             ok = False
         for M in blocks:
             lam = np.linalg.eigvalsh(ref_cov(M, 0))
-            if lam[0] <= 0 or lam[-1] / lam[0] > COND_MAX or (len(lam) > 1 and lam[1] / lam[0] < GAP_MIN):
+            b = len(lam)
+            ranks = set(nc_value(nc, b) for nc in nc_letters(b) if nc != "none")  # truncation ranks in the alphabet
+            gaps_ok = all(lam[b - r] / lam[b - r - 1] >= GAP_MIN for r in ranks if 1 <= r < b)
+            if lam[0] <= 0 or lam[-1] / lam[0] > COND_MAX or not gaps_ok:
                 ok = False
                 break
         if ok:
@@ -438,14 +471,25 @@ class C12(Check):
             feeds = FEEDS
             if st["root"][0] == "D" and st["nv"] == 4:
                 feeds = ["array"]
+            enabled = {mode: nc_letters(block_size(st["edges"], mode, st["k"])) for mode in MODES}
             for feed in feeds:
                 for dt in DTYPES:
                     for nc in ncomps:
                         for bias in (0, 1):
                             for mode in MODES:
-                                if nc == "trunc" and block_size(st["edges"], mode, st["k"]) < 2:
-                                    continue  # rank 0 "inverse" of a 1 x 1 block: not a model
-                                out.append(("fit", mode, bias, nc, dt, feed))
+                                if nc in enabled[mode]:
+                                    out.append(("fit", mode, bias, nc, dt, feed))
+            # boundary letters of n_components: the value only reaches the inversion of the block covariance, so they
+            # are crossed with the mode (which fixes dim); thorough also crosses them with bias and stored dtype
+            wide = self.tier != "quick" and feeds is FEEDS
+            for nc in NCOMP_ALL:
+                if nc in ncomps:
+                    continue
+                for dt in DTYPES if wide else ["f8"]:
+                    for bias in (0, 1) if wide else (0,):
+                        for mode in MODES:
+                            if nc in enabled[mode]:
+                                out.append(("fit", mode, bias, nc, dt, "array"))
             if feeds is FEEDS:
                 for feed in FORM_FEEDS:
                     for mode in MODES:
@@ -459,6 +503,8 @@ class C12(Check):
         for q in ("single", "batch", "mean"):
             out.append(("maha", q, 0, 0))
             out.append(("maha", q, 1, 1))
+        out.append(("maha", "zero", 1, 0))
+        out.append(("maha", "zero", 0, 0))  # value exactly 0: the quadratic form of the zero vector is 0
         out.append(("pca",))
         # argument forms of the query: on every model with the plain inverse and bias 0 (the query path does not
         # depend on how the precision was estimated; graph, k, mode, stored dtype, storage and class all vary)
@@ -483,16 +529,15 @@ class C12(Check):
     def _feed(self, st, rows, feed):
         rows = np.array(rows, dtype=float, copy=True)
         if not feed.startswith("pc"):
-            return present(rows, feed)
+            return present(rows, feed[:-2] if feed.endswith("-n") else feed)
         from menpo.shape import PointCloud
 
         dt = {"pc-i8": np.int64, "pc-f4": np.float32}.get(feed, np.float64)
         pcs = [PointCloud(_exact(r.reshape(st["nv"], st["k"]), dt)) for r in rows]
-        return tuple(pcs) if feed == "pc-tuple" else pcs
+        return tuple(pcs) if feed == "pc-tuple" else iter(pcs) if feed == "pc-iter-n" else pcs
 
     def _ncomp_value(self, st, mode, nc):
-        b = block_size(st["edges"], mode, st["k"])
-        return None if nc == "none" else (b - 1 if nc == "trunc" else b)
+        return nc_value(nc, block_size(st["edges"], mode, st["k"]))
 
     def _where(self, st, what):
         return "%s-%s" % (what, "edgeless" if not st["edges"] else "edges")
@@ -524,7 +569,8 @@ class C12(Check):
         self._payload(st, feed)
         models, errs = [], []
         for sparse in (True, False):
-            m, err = _try(lambda: cls(self._feed(st, st["X"], feed), make_graph(st["root"]), mode=mode, n_components=ncv, dtype=dtype, sparse=sparse, bias=bias))
+            kw = {"n_samples": N_SAMPLES} if feed.endswith("-n") else {}
+            m, err = _try(lambda: cls(self._feed(st, st["X"], feed), make_graph(st["root"]), mode=mode, n_components=ncv, dtype=dtype, sparse=sparse, bias=bias, **kw))
             models.append(m)
             errs.append(err)
         st["cfg"] = (mode, bias, nc, dt, feed)
@@ -536,7 +582,7 @@ class C12(Check):
             which = ", ".join("%s: %s" % (s, e) for s, e in zip(("sparse", "dense"), errs) if e)
             return [Failure(self._where(st, "fit"), "model-construction-raised", "%s(%s) on graph %r with %d feature(s) per vertex raised (%s)" % (cls.__name__, ", ".join(map(str, op[1:])), st["root"][:4], st["k"], which))]
         st["models"] = models
-        st["ref"] = ref_precision(st["X"], st["nv"], st["k"], st["edges"], mode, bias, nc)
+        st["ref"] = ref_precision(st["X"], st["nv"], st["k"], st["edges"], mode, bias, ncv)
         st["qscale"] = float(np.abs(st["ref"]).max())
         if not verify:
             return []
@@ -637,6 +683,10 @@ class C12(Check):
                 self.note("graph:first-vertex-isolated")
         self.note("bias:%d" % bias)
         self.note("ncomp:%s" % nc)
+        dim = block_size(edges, mode, k)
+        ncv = nc_value(nc, dim)
+        if ncv is not None:
+            self.note("ncomp-range:%s" % ("below-dim" if ncv < dim else "equal-dim" if ncv == dim else "between-dim-and-2dim" if ncv < 2 * dim else "2dim-or-more"))
         self.note("dtype:%s" % dt)
         self.note("feed:%s" % feed)
         self.note("k:%d" % k)
@@ -681,6 +731,8 @@ class C12(Check):
             return np.vstack((g[1], mu, g[2])), "2d"
         if q == "listq":
             return g[1:].copy(), "list"
+        if q == "zero":
+            return np.zeros((1, mu.shape[0])), "1d"
         raise ValueError(q)
 
     def _call_maha(self, st, m, rows, form, sub, root):
@@ -770,6 +822,8 @@ class C12(Check):
                 fails.append(Failure(where, "sparse-equals-dense", "sparse %r vs dense %r (%s)" % (got["sparse"], got["dense"], ctx)))
         # outcome classes
         self.note("maha-query:%s" % q)
+        if q == "zero" and not sub and not fails:
+            self.note("maha:zero-vector-without-mean-subtraction")
         self.note("maha-opts:subtract%d-sqrt%d" % (sub, root))
         if sub:
             for i in range(n):
@@ -924,8 +978,9 @@ class C12(Check):
         need = ["fit:agrees", "graph:edgeless", "graph:edges", "graph:isolated-vertex-among-edges", "graph:vertex-of-degree>=2", "graph:vertex-of-degree>=3", "graph:edge-from-higher-to-lower-vertex", "graph:last-vertex-isolated", "graph:first-vertex-isolated"]
         need += ["graph:U2", "graph:U3", "graph:T2", "graph:T3", "graph:T4", "graph:D2", "graph:D3"]
         if self.tier != "quick":
-            need += ["graph:U4", "graph:D4", "ncomp:full"]
-        need += ["mode:%s" % m for m in MODES] + ["bias:0", "bias:1", "ncomp:none", "ncomp:trunc"]
+            need += ["graph:U4", "graph:D4"]
+        need += ["mode:%s" % m for m in MODES] + ["bias:0", "bias:1"] + ["ncomp:%s" % nc for nc in NCOMP_ALL]
+        need += ["ncomp-range:below-dim", "ncomp-range:equal-dim", "ncomp-range:between-dim-and-2dim", "ncomp-range:2dim-or-more", "maha-query:zero", "maha:zero-vector-without-mean-subtraction"]
         need += ["dtype:%s" % d for d in DTYPES] + ["feed:%s" % f for f in FEEDS + FORM_FEEDS] + ["k:1", "k:2", "k:3"]
         need += ["qform:%s-%s" % fs for fs in VEC_QFORMS + PC_QFORMS] + ["qform:agrees", "qform-opts:subtract0", "qform-opts:subtract1"]
         need += ["sparsity:unjoined-pair-checked", "sparsity:isolated-vertex-checked", "sparsity:joined-pair-nonzero", "psd:singular", "psd:definite"]
@@ -957,7 +1012,9 @@ class C12(Check):
             "features_per_vertex": [1, 2, 3],
             "modes": MODES,
             "bias": [0, 1],
-            "n_components": NCOMP_QUICK if self.tier == "quick" else NCOMP_THOROUGH,
+            "n_components_fully_crossed": NCOMP_QUICK if self.tier == "quick" else NCOMP_THOROUGH,
+            "n_components_boundary_letters": [nc for nc in NCOMP_ALL if nc not in (NCOMP_QUICK if self.tier == "quick" else NCOMP_THOROUGH)],
+            "n_components_far_value": NCOMP_FAR,
             "dtypes": DTYPES,
             "feeds": FEEDS,
             "training_data_form_letters": FORM_FEEDS,
@@ -965,15 +1022,17 @@ class C12(Check):
             "query_form_letters_without_mean_subtraction": ["%s/%s" % fs for fs in VEC_QFORMS_NOSUB + PC_QFORMS_NOSUB],
             "query_letters": QUERIES,
             "n_samples": N_SAMPLES,
-            "guards": {"block_cov_cond_max": COND_MAX, "block_cov_smallest_eig_gap_min": GAP_MIN},
+            "guards": {"block_cov_cond_max": COND_MAX, "block_cov_eig_gap_min_at_truncation_ranks": GAP_MIN},
             "tolerances": {"precision_rel_max_f8": TOL["f8"], "precision_rel_max_f4": TOL["f4"], "mean_abs_scaled": TOL_MEAN, "mean_abs_scaled_float32_data": TOL_MEAN_F4, "batch_vs_single": TOL_SAME_MODEL, "pca_eigpair_f8": TOL_EIGPAIR["f8"], "pca_eigpair_f4": TOL_EIGPAIR["f4"]},
         }
 
     def assumptions(self):
         return [
             "graphs: every undirected graph and every digraph without antiparallel pairs on 2..%d vertices, every labelled rooted tree on 2..4 vertices; larger graphs are outside the bound" % (3 if self.tier == "quick" else 4),
-            "one data letter of %d samples per (V, k) (seeded payload) under the conditioning guard: every block covariance has condition number <= %g and its two smallest eigenvalues differ by a factor >= %g" % (N_SAMPLES, COND_MAX, GAP_MIN),
-            "rank truncation letters: none, block size - 1 (skipped where the block is 1 x 1: rank 0)%s" % ("" if self.tier == "quick" else ", block size (SVD path, full rank)"),
+            "one data letter of %d samples per (V, k) (seeded payload) under the conditioning guard: every block covariance has condition number <= %g and consecutive eigenvalues at every truncation rank of the alphabet (1, dim//2, dim-1) differ by a factor >= %g" % (N_SAMPLES, COND_MAX, GAP_MIN),
+            "n_components letters relative to the block size dim: none, 1, dim//2, dim-1, dim, dim+1, 2dim-1, 2dim, %d (values >= dim are the documented full inverse); values < 1 (rank 0: not a model; negative: undocumented slicing) are not letters; "
+            "letters other than %s are crossed with the mode only (thorough: also bias and stored dtype), ndarray feed" % (NCOMP_FAR, "/".join(NCOMP_QUICK if self.tier == "quick" else NCOMP_THOROUGH)),
+            "boundaries not in the alphabet because the property text is silent or the quantifier excludes them: an empty query batch (returns []), n_samples = dim + 1 (barely invertible block covariances are not 'well-conditioned'), a single-vertex graph",
             "4-vertex digraphs (thorough) run with k in {1, 2} and the ndarray feed only; every other graph with k in {1, 2, 3} and all three feeds",
             "three generic query vectors per (V, k) plus the sample mean; subtract_mean=False and square_root=True on a subset of the query letters",
             "[interp] principal_components_analysis is used as an observation channel only (returned pairs must be eigenpairs of the reference precision); equality of the PCA between storages is not demanded - the sparse route asks ARPACK for N-1 pairs by design",
